@@ -56,8 +56,12 @@ def tol_tight(conf):
 
 TOL_GRID4 = (1e-3, 1e-2)
 TOL_BCKLIN = 1e-6
-FLOOR = 1e-8          # refinement test: an error below this is not required to shrink further
-RATIO = {4: 0.35, 1: 0.80}     # required error reduction per halving (expected 1/16 and 1/2; observed <= 0.13 and <= 0.56)
+# refinement test: required error reduction per halving (expected 1/16 and 1/2; observed <= 0.13 and <= 0.56 above the floor).
+# An error below the floor is not required to shrink: that small, the leading error term of a component can cancel by accident and
+# the sequence is not monotone (seen once in 10^4 cases for Euler: 5.5e-4 -> 5.4e-4 -> 3.4e-4 on a 33-point grid).  Errors of the
+# kind the test is there for (a wrong or missing term, an index shifted by one interval) are >= 5e-3 on these grids.
+RATIO = {4: 0.35, 1: 0.80}
+FLOOR = {4: 1e-4, 1: 5e-3}
 
 FAMILIES = ["linsys", "forced", "separable", "logistic", "yindep"]
 PMODES = ["explicit", "nn", "em", "mixed_nn", "mixed_em"]
@@ -98,8 +102,8 @@ ASSUMPTIONS = [
     "adaptive integrators are run with atol=rtol=1e-10 (rk45) or 1e-9 (rk23); comparison tolerance 1e-6 / 1e-5 (backward at 1e-9: 1e-5 / 1e-4; with rk23: 1e-4 / 1e-3) "
     "relative to the largest reference gradient of the leaf kind, floored at 1e-2 * max(largest reference gradient of any leaf, "
     "largest cotangent entry)",
-    "fixed-step methods: base grids of 13..25 points (Euler 33) with spacing ratio <= 3, refined twice by midpoints; required error "
-    "reduction per halving 0.35 (order 4) / 0.80 (Euler) unless the error is already below 1e-8",
+    "fixed-step methods: base grids of 13..25 points (Euler 49) with spacing ratio <= 3, refined twice by midpoints; required error "
+    "reduction per halving 0.35 (order 4) / 0.80 (Euler) unless the error is already below 1e-4 / 5e-3",
     "'bck_options are honoured' is decided numerically on linear systems only (dL/dy0 there depends on the backward integrator alone)",
     "aliasing: one tensor supplied twice in params, or as an object's parameter and in params; two attributes of one object sharing "
     "a tensor are not generated here (C09/C10)",
@@ -107,17 +111,12 @@ ASSUMPTIONS = [
     "is therefore not detectable (nor required) by this property",
 ]
 BUDGET = {"quick": {"worker_timeout": 900, "case_timeout": 200}, "thorough": {"worker_timeout": 3300, "case_timeout": 400}}
-SHARDS_PER_JOB = 4
-REQUIRED_COUNTERS = {
-    "quick": {"first_nograph_path": 40, "first_graph_path": 40, "second_order_compared": 30, "ts_grad_compared": 60,
-              "ts_second_adaptive": 5, "tuple_state": 10, "decreasing_ts": 40, "objparams_grad_compared": 30,
-              "unused_checked": 20, "bck_different": 30, "rhs_calls_backward": 1000, "bcklin_compared": 10,
-              "refinement_tests": 20, "cot_one_time": 20, "aliased_compared": 20},
-    "thorough": {"first_nograph_path": 400, "first_graph_path": 400, "second_order_compared": 300, "ts_grad_compared": 600,
-                 "ts_second_adaptive": 50, "tuple_state": 100, "decreasing_ts": 400, "objparams_grad_compared": 300,
-                 "unused_checked": 200, "bck_different": 300, "rhs_calls_backward": 10000, "bcklin_compared": 100,
-                 "refinement_tests": 200, "cot_one_time": 200, "aliased_compared": 200},
-}
+SHARDS_PER_JOB = 2
+_REQ = {"first_nograph_path": 150, "first_graph_path": 300, "second_order_compared": 150, "ts_grad_compared": 300,
+        "ts_second_adaptive": 60, "tuple_state": 40, "decreasing_ts": 200, "objparams_grad_compared": 250, "unused_checked": 120,
+        "bck_different": 200, "rhs_calls_backward": 100000, "rhs_calls_backward2": 30000, "bcklin_compared": 60,
+        "refinement_tests": 200, "cot_one_time": 250, "aliased_compared": 40, "derived_leaves": 80}
+REQUIRED_COUNTERS = {"quick": dict(_REQ), "thorough": {k: 8 * v for k, v in _REQ.items()}}
 
 
 # ------------------------------------------------------------------------------------------------ case lists
@@ -182,7 +181,7 @@ def cases(seed, tier):
         rng = random.Random(sub_seed(seed, "c08f", i))
         d = _common(rng, {"group": "fixed", "seed": sub_seed(seed, "c08fs", i)})
         d["conf"] = grid[i % len(grid)]
-        d["nt"] = rng.choice([13, 17, 25]) if d["conf"] != "euler" else 33
+        d["nt"] = rng.choice([13, 17, 25]) if d["conf"] != "euler" else 49
         d["order"] = 2 if i % 4 == 3 else 1
         d["cg"] = (i // 4) % 2 if d["order"] == 1 else 1
         out.append(d)
@@ -754,7 +753,7 @@ def run_case(desc):
         _check_unused(obs, desc, P, out, gname)
         obs.note(worst_ratio=worst[0], rhs_calls=dict(P.cnt))
         if worst[0] > 1e-2:
-            obs.count("error_above_1pct_of_tolerance")
+            obs.count("error_above_1pct_of_tolerance:%s:order%d" % (tag, order))
         obs.nontrivial = out.scale1 > 0 and P.cnt["bwd"] > 0
         return obs.result()
 
@@ -783,7 +782,7 @@ def run_case(desc):
             _check_errs(obs, levels[2].errs1, TOL_GRID4[0], "grad1:%%s:fixed:%s:%s" % (fb, path), "first-order gradient on the finest grid", worst)
         obs.count("refinement_tests")
         for a_, b_, nm in ((e[0], e[1], "01"), (e[1], e[2], "12")):
-            okr = b_ <= max(FLOOR, RATIO[p] * a_)
+            okr = b_ <= max(FLOOR[p], RATIO[p] * a_)
             obs.check(okr, "refine1:fixed:%s:%s" % (fb, path),
                       "halving the steps reduced the gradient error only from %.3e to %.3e (order %d method)" % (a_, b_, p), errs=e)
         if order == 2 and levels[1].errs2 is not None:
@@ -794,7 +793,7 @@ def run_case(desc):
         _check_unused(obs, desc, P, levels[1], "fixed")
         obs.note(worst_ratio=worst[0], rhs_calls=dict(P.cnt))
         if worst[0] > 1e-2:
-            obs.count("error_above_1pct_of_tolerance")
+            obs.count("error_above_1pct_of_tolerance:%s:order%d" % (tag, order))
         obs.nontrivial = levels[0].scale1 > 0 and P.cnt["bwd"] > 0
         return obs.result()
     raise HarnessBug("unknown group %s" % group)
